@@ -323,6 +323,9 @@ func (p *Validator) validateBuffer(buf []byte, last bool) error {
 			}
 		}
 	}
+	if last && 0 < len(p.stack) {
+		return p.newError(off, "incomplete JSON")
+	}
 	if last && len(p.mode) == 256 { // valid finishing maps are one byte longer
 		return p.newError(off, "incomplete JSON")
 	}
